@@ -172,6 +172,7 @@ func genC20Plan(r *zsim.Rng) *sysPlan {
 			ps.LingerMs = []int{3000, 20000, 60000}[r.Intn(3)]
 		}
 		ps.Fork = r.Chance(1, 3)
+		ps.IgnTerm = r.Chance(1, 4) // a command that ignores TERM/INT/HUP: only SIGKILL stops it
 		if !ps.StartErr && !ps.Fork && ps.LingerMs == 0 && r.Chance(1, 8) {
 			// the command leaves a process behind that has left its process group and still holds the output
 			// pipe (`setsid -f sleep 3600`, a daemon started from the preview script)
@@ -251,7 +252,7 @@ func runC20(c *runCtx) {
 		}
 		r.genSeq["PV"]++
 		sc := simos.Script{StartErr: ps.StartErr, Endless: ps.Endless, ExitCode: ps.Exit, Fork: ps.Fork, LingerMs: clampInt(ps.LingerMs, 0, 120000),
-			DetachMs: clampInt(ps.DetachMs, 0, 3600000)}
+			DetachMs: clampInt(ps.DetachMs, 0, 3600000), IgnoreTerm: ps.IgnTerm}
 		// text split into chunks of lines
 		lines := strings.SplitAfter(ps.Text, "\n")
 		if len(lines) > 0 && lines[len(lines)-1] == "" {
